@@ -35,6 +35,7 @@ func main() {
 	n := flag.Int("n", 100, "number of generated cases (stream specific scale)")
 	out := flag.String("out", "", "output directory")
 	replay := flag.String("replay", "", "replay file (JSON with an \"in\" object)")
+	chk := flag.String("chk", "", "Coq checker to apply (default: the property's own)")
 	flag.Parse()
 	p, ok := props[*prop]
 	if !ok {
@@ -48,6 +49,11 @@ func main() {
 	}
 	if err := os.MkdirAll(*out, 0o755); err != nil {
 		panic(err)
+	}
+	if *chk != "" && *chk != p.chk {
+		cp := *p
+		cp.chk = *chk
+		p = &cp
 	}
 	o := newOut(*out, p)
 	if *replay != "" {
